@@ -11,6 +11,7 @@ use vsupport::serde_json::{json, Value};
 use nutype::nutype;
 use std::convert::TryFrom;
 use std::str::FromStr;
+use std::ops::Deref;
 """
 
 
@@ -83,8 +84,182 @@ def render_call(d):
             'let inner = s.parse::<Inner>(); '
             'let xx = json!({"inner": match &inner { Ok(v) => json!({"ok": true, "v": [v.enc()]}), Err(_) => json!({"ok": false, "v": []}) }}); '
             '(guard(|| match s.parse::<%s>() { Ok(t) => ok(t.into_inner().enc()), Err(e) => { let msg = e.to_string(); %s } }), xx) }' % (T, m))
+    arms.extend(observer_arms(d, T, validated))
     arms.append('_ => (json!({"k": "noep"}), Value::Null)')
     return "pub fn call(ep: &str, inp: &Value) -> (Value, Value) {\n    match ep {\n        %s\n    }\n}\n" % ",\n        ".join(arms)
+
+
+def str_env_expr(d, var):
+    n_custom = [s for s in d["san"] if s["k"] == "with"]
+    customs = ", ".join("(%s) as fn(String) -> String" % san_closure(d, s) for s in n_custom)
+    return "str_env(%s, %d, &[%s])" % (var, max(1, len(d["san"])), customs)
+
+
+def observer_arms(d, T, validated):
+    """entry points that observe an obtained value: canon*, views, cmp, ser, deser."""
+    fam = d["fam"]
+    arms = []
+    serde_ok = has(d, "Serialize") and has(d, "Deserialize")
+    env_v = ('"env": %s,' % str_env_expr(d, "&v")) if fam == "string" else ""
+    # ---- canon: re-enter the constructor (and the other entry points) with a stored value
+    steps = {"canon": "res(mk_res(v.clone()))"}
+    rts = {"canon": "true"}
+    if has(d, "TryFrom"):
+        steps["canon_tf"] = "res(<%s as TryFrom<Inner>>::try_from(v.clone()).map(|t| t.into_inner()))" % T
+        rts["canon_tf"] = "true"
+    if has(d, "Display") and has(d, "FromStr"):
+        if fam == "string":
+            steps["canon_disp"] = "res(t.to_string().parse::<%s>().map(|t| t.into_inner()))" % T
+        else:
+            perr = ("match e { NtParseError::Parse(_) => json!({\"k\": \"perr\"}), NtParseError::Validate(e) => err_dbg(&e) }"
+                    if validated else "match e { NtParseError::Parse(_) => json!({\"k\": \"perr\"}) }")
+            steps["canon_disp"] = "match t.to_string().parse::<%s>() { Ok(t) => ok(t.into_inner().enc()), Err(e) => %s }" % (T, perr)
+        rts["canon_disp"] = "v.to_string().parse::<Inner>().map(|w| w.enc() == v.enc()).unwrap_or(false)"
+    if serde_ok:
+        steps["canon_serde"] = ("match serde_json::to_string(&t) { Ok(s) => match serde_json::from_str::<%s>(&s) { Ok(t) => ok(t.into_inner().enc()), "
+                                "Err(e) => probe::classify_de_error(&e.to_string(), &variant_texts(), \"Nt\") }, Err(e) => json!({\"k\": \"sererr\"}) }" % T)
+        rts["canon_serde"] = "serde_json::to_string(&v).ok().and_then(|s| serde_json::from_str::<Inner>(&s).ok()).map(|w| w.enc() == v.enc()).unwrap_or(false)"
+    if serde_ok:
+        arms.append(
+            '"canon_fmt" => { let fmt = inp["fmt"].as_str().unwrap(); let x: Inner = <Inner as Dec>::dec(&inp["v"]); match mk(x) { None => (json!({"k": "skip"}), Value::Null), '
+            'Some(t) => { let v: Inner = t.clone().into_inner(); '
+            'let rt: bool = probe::ser(fmt, &v).ok().and_then(|d| probe::de::<Inner>(fmt, &d).ok()).map(|w| w.enc() == v.enc()).unwrap_or(false); '
+            '(guard(|| match probe::ser(fmt, &t) { Ok(doc) => match probe::de::<%s>(fmt, &doc) { Ok(t) => ok(t.into_inner().enc()), '
+            'Err(m) => probe::classify_de_error(&m, &variant_texts(), "Nt") }, Err(e) => json!({"k": "sererr"}) }), json!({%s "v": v.enc(), "rt": rt})) } } }' % (T, env_v))
+    for ep, expr in steps.items():
+        arms.append(
+            '"%s" => { let x: Inner = <Inner as Dec>::dec(inp); match mk(x) { None => (json!({"k": "skip"}), Value::Null), '
+            'Some(t) => { let v: Inner = t.clone().into_inner(); let rt: bool = %s; '
+            '(guard(|| %s), json!({%s "v": v.enc(), "rt": rt})) } } }' % (ep, rts[ep], expr, env_v))
+    # ---- views
+    fields = ['"into_inner": [t.clone().into_inner().enc()]']
+    ptrs = []
+    if has(d, "AsRef"):
+        tgt = "str" if fam == "string" else "Inner"
+        fields.append('"as_ref": [<%s as AsRef<%s>>::as_ref(&t).enc()]' % (T, tgt))
+        ptrs.append("(<%s as AsRef<%s>>::as_ref(&t) as *const %s as *const u8)" % (T, tgt, tgt))
+    if has(d, "Deref"):
+        fields.append('"deref": [(&*t).enc()]')
+    if has(d, "Borrow"):
+        fields.append('"borrow": [<%s as ::std::borrow::Borrow<Inner>>::borrow(&t).enc()]' % T)
+        if fam == "string":
+            fields.append('"borrow2": [<%s as ::std::borrow::Borrow<str>>::borrow(&t).enc()]' % T)
+            ptrs.append("(<%s as ::std::borrow::Borrow<str>>::borrow(&t) as *const str as *const u8)" % T)
+        else:
+            ptrs.append("(<%s as ::std::borrow::Borrow<Inner>>::borrow(&t) as *const Inner as *const u8)" % T)
+    if has(d, "Into"):
+        fields.append('"into": [<Inner as From<%s>>::from(t.clone()).enc()]' % T)
+    if has(d, "Clone"):
+        fields.append('"clone": [t.clone().clone().into_inner().enc()]')
+    if has(d, "IntoIterator"):
+        fields.append('"iter": [t.clone().into_iter().collect::<Vec<_>>().enc()]')
+        fields.append('"iter_ref": [(&t).into_iter().cloned().collect::<Vec<_>>().enc()]')
+    if has(d, "Display"):
+        if fam == "string":
+            specs = ["{}", "{:>8}", "{:<6}|", "{:^7}", "{:.1}", "{:*>5}", "{:?}" if False else "{:3}"]
+        elif fam == "int":
+            specs = ["{}", "{:>8}", "{:+}", "{:08}", "{:<5}|", "{:^9}"]
+        else:
+            specs = ["{}", "{:.1}", "{:+}", "{:10.3}", "{:08.2}", "{:e}" if False else "{:>12}"]
+        pairs = ", ".join('[format!("%s", t).enc(), format!("%s", v).enc()]' % (sp, sp) for sp in specs)
+        fields.append('"disp": [%s]' % pairs)
+    if len(ptrs) >= 1 and has(d, "Deref") and fam != "string":
+        base = "(&*t as *const Inner as *const u8)"
+        fields.append('"ptr": [%s]' % ", ".join("%s == %s" % (p, base) for p in ptrs))
+    elif len(ptrs) >= 2:
+        fields.append('"ptr": [%s]' % ", ".join("%s == %s" % (p, ptrs[0]) for p in ptrs[1:]))
+    arms.append(
+        '"views" => { let x: Inner = <Inner as Dec>::dec(inp); match mk(x) { None => (json!({"k": "skip"}), Value::Null), '
+        'Some(t) => { let v: Inner = t.clone().into_inner(); (guard(|| json!({"k": "obs", %s})), json!({"v": v.enc()})) } } }' % ", ".join(fields))
+    # ---- cmp
+    cf = []
+    if has(d, "PartialEq"):
+        cf.append('"eq": ta == tb, "ieq": a == b')
+    if has(d, "PartialOrd"):
+        cf.append('"pcmp": ord_name(ta.partial_cmp(&tb)), "ipcmp": ord_name(a.partial_cmp(&b))')
+    if has(d, "Ord"):
+        cf.append('"cmp": ord_name(Some(ta.cmp(&tb)))')
+        if not has(d, "PartialOrd"):
+            cf.append('"ipcmp": ord_name(a.partial_cmp(&b))')
+    if has(d, "Hash"):
+        hs = ["hash_default(&ta) == hash_default(&a)", "hash_fnv(&ta) == hash_fnv(&a)"]
+        if fam == "string" and has(d, "Borrow"):
+            hs.append("hash_default(&ta) == hash_default(<%s as ::std::borrow::Borrow<str>>::borrow(&ta))" % T)
+            hs.append("hash_fnv(&ta) == hash_fnv(<%s as ::std::borrow::Borrow<str>>::borrow(&ta))" % T)
+        cf.append('"hash": [%s]' % ", ".join(hs))
+    arms.append(
+        '"cmp" => { let x: Inner = <Inner as Dec>::dec(&inp[0]); let y: Inner = <Inner as Dec>::dec(&inp[1]); '
+        'match (mk(x), mk(y)) { (Some(ta), Some(tb)) => { let a: Inner = ta.clone().into_inner(); let b: Inner = tb.clone().into_inner(); '
+        '(guard(|| json!({"k": "obs", %s})), json!({"a": a.enc(), "b": b.enc()})) }, _ => (json!({"k": "skip"}), Value::Null) } }' % ", ".join(cf))
+    # ---- ser / deser
+    if serde_ok:
+        arms.append(
+            '"ser" => { let fmt = inp["fmt"].as_str().unwrap(); let x: Inner = <Inner as Dec>::dec(&inp["v"]); '
+            'match mk(x) { None => (json!({"k": "skip"}), Value::Null), Some(t) => { let v: Inner = t.clone().into_inner(); '
+            'let mine = guard(|| match probe::ser(fmt, &t) { Ok(d) => json!({"k": "ok", "doc": d.repr()}), Err(e) => json!({"k": "sererr", "m": e}) }); '
+            'let reference = if fmt == "ron" { probe::ser(fmt, &refty::Nt(v.clone())) } else { probe::ser(fmt, &v) }; '
+            'let rdoc = reference.map(|d| d.repr()).unwrap_or(Value::Null); '
+            'let same = mine.get("doc").map(|d| *d == rdoc).unwrap_or(false); '
+            '(json!({"k": mine["k"], "same": same, "ref_ok": !rdoc.is_null()}), json!({"v": v.enc(), "doc": mine.get("doc"), "ref": rdoc})) } } }')
+        key_arm = ""
+        if has(d, "Ord") and has(d, "Eq") and fam in ("int", "string"):
+            key_arm = ('if pos == "mapkey" { let doc = if let Some(r) = inp.get("raw") { probe::Doc::from_repr(r) } else { '
+                       'let x: Inner = <Inner as Dec>::dec(&inp["val"]); match probe::ser_key(fmt, refty::NtK(x)) { Ok(d) => d, Err(e) => return (json!({"k": "skip", "m": e}), Value::Null) } }; '
+                       'let inner = probe::de_key::<refty::NtK>(fmt, &doc).map(|r| r.0); '
+                       'let out = guard(|| match probe::de_key::<%s>(fmt, &doc) { Ok(t) => ok(t.into_inner().enc()), Err(m) => probe::classify_de_error(&m, &variant_texts(), "Nt") }); '
+                       'return (out, json!({%s "inner": match &inner { Ok(v) => json!({"ok": true, "v": [v.enc()]}), Err(m) => json!({"ok": false, "v": [], "m": m}) }, "doc": doc.repr()})); } ' % (T, "%s"))
+            key_arm = key_arm % ('"env": match &inner { Ok(v) => %s, Err(_) => Value::Null },' % str_env_expr(d, "v") if fam == "string" else "")
+        env_inner = ('"env": match &inner { Ok(v) => %s, Err(_) => Value::Null },' % str_env_expr(d, "v")) if fam == "string" else ""
+        arms.append(
+            '"deser" => { let fmt = inp["fmt"].as_str().unwrap(); let pos = inp["pos"].as_str().unwrap(); %s'
+            'let doc = if let Some(r) = inp.get("raw") { probe::Doc::from_repr(r) } else { '
+            'let x: Inner = <Inner as Dec>::dec(&inp["val"]); match probe::ser_at(fmt, pos, refty::Nt(x)) { Ok(d) => d, Err(e) => return (json!({"k": "skip", "m": e}), Value::Null) } }; '
+            'let inner = probe::de_at::<refty::Nt>(fmt, pos, &doc).map(|r| r.0); '
+            'let out = guard(|| match probe::de_at::<%s>(fmt, pos, &doc) { Ok(t) => ok(t.into_inner().enc()), Err(m) => probe::classify_de_error(&m, &variant_texts(), "Nt") }); '
+            '(out, json!({%s "inner": match &inner { Ok(v) => json!({"ok": true, "v": [v.enc()]}), Err(m) => json!({"ok": false, "v": [], "m": m}) }, "doc": doc.repr()})) }' % (key_arm, T, env_inner))
+    return arms
+
+
+def render_helpers(d):
+    """mk / mk_res / variant_texts / reference serde newtype."""
+    T = ntc(d)
+    validated = d["vmode"] != "none"
+    fam = d["fam"]
+    src = ""
+    if validated:
+        src += "pub fn mk_res(x: Inner) -> Result<Inner, %s> { %s::try_new(x).map(|t| t.into_inner()) }\n" % (
+            "CErr" if d["vmode"] == "custom" else "NtError", T)
+        src += "pub fn mk(x: Inner) -> Option<%s> { ::std::panic::catch_unwind(::std::panic::AssertUnwindSafe(|| %s::try_new(x).ok())).ok().flatten() }\n" % (T, T)
+    else:
+        src += "pub fn mk_res(x: Inner) -> Result<Inner, ::core::convert::Infallible> { Ok(%s::new(x).into_inner()) }\n" % T
+        src += "pub fn mk(x: Inner) -> Option<%s> { ::std::panic::catch_unwind(::std::panic::AssertUnwindSafe(|| %s::new(x))).ok() }\n" % (T, T)
+    if d["vmode"] == "std":
+        from .names import VARIANT
+        items = ", ".join('("%s".to_string(), NtError::%s.to_string())' % (VARIANT[r["k"]], VARIANT[r["k"]]) for r in d["val"])
+        src += "pub fn variant_texts() -> Vec<(String, String)> { vec![%s] }\n" % items
+    elif d["vmode"] == "custom":
+        names = custom_variant_names(d)
+        items = ", ".join('("%s".to_string(), CErr::%s.to_string())' % (n, n) for n in names)
+        src += "pub fn variant_texts() -> Vec<(String, String)> { vec![%s] }\n" % items
+    else:
+        src += "pub fn variant_texts() -> Vec<(String, String)> { vec![] }\n"
+    if has(d, "Serialize") and has(d, "Deserialize"):
+        extra = ""
+        if fam in ("int", "string"):
+            extra = "#[derive(serde::Serialize, serde::Deserialize, Debug, Clone, PartialEq, Eq, PartialOrd, Ord)] pub struct NtK(pub Inner);"
+            extra = extra.replace("struct NtK", '#[serde(rename = "Nt")] pub struct NtK').replace("pub pub", "pub").replace("] pub #[serde", "] #[serde")
+        src += ("pub mod refty { use super::Inner; #[derive(serde::Serialize, serde::Deserialize, Debug, Clone)] pub struct Nt(pub Inner); %s }\n" % extra)
+    src += 'pub fn ord_name(o: Option<::std::cmp::Ordering>) -> &\'static str { match o { None => "None", Some(::std::cmp::Ordering::Less) => "Less", Some(::std::cmp::Ordering::Equal) => "Equal", Some(::std::cmp::Ordering::Greater) => "Greater" } }\n'
+    return src
+
+
+def custom_variant_names(d):
+    fam, fn = d["fam"], d["val"][0]["fn"]
+    if fam == "int" and fn == "pos":
+        return ["Zero", "Negative"]
+    if fam == "float" and fn == "pos":
+        return ["NotANumber", "NotPositive"]
+    return ["Empty", "TooLong"]
 
 
 def render_variant_match(d):
@@ -104,6 +279,7 @@ def render_module(d):
     src += "pub type Inner = %s;\n" % inner
     src += "pub type NtC = Nt%s;\n" % d.get("gen_use", "")
     src += render_variant_match(d)
+    src += render_helpers(d)
     src += render_call(d)
     return src
 
